@@ -113,9 +113,10 @@ def linLine (st : NState) (e : SExp) : NState × String :=
       let ordBad := if getBad.isSome then none else orderBad items
       if !writesSequential ws n then (st, "diff the writer's own history is not sequential (harness fault)") else
       if early.isNone && late.isNone && inv.isNone && getBad.isNone && ordBad.isSome then
-        (st, match ordBad with
-          | some (x, m) => s!"reject C15 a read in [{x.1},{x.2.1}] returned a value the cache held no later than state {x.2.2.2}, although an earlier read had already returned one it held no earlier than state {m}: reads went backwards (a half-applied write was visible)"
-          | none => "ok") else
+        -- the linear sweep found something: exhibit the pair with the search that `C15.backwardsPair_rejects_sound` is about
+        (st, match backwardsPair (items.map fun i => ⟨i.1, i.2.1, i.2.2.1, i.2.2.2⟩) with
+          | some (y, x) => s!"reject C15 a read in [{x.call},{x.ret}] returned a value the cache held no later than state {x.hi}, although the read in [{y.call},{y.ret}] had already returned one it held no earlier than state {y.lo}: reads went backwards (a half-applied write was visible)"
+          | none => "diff the sweep over Gets and Lists reports a backwards pair that the reference search does not find") else
       match early, late, inv, getBad with
       | some r, _, _, _ => (st, s!"reject C15 reader {r.id} saw state {r.k} in [{r.call},{r.ret}] before its write was issued at {wcall r.k}")
       | _, some r, _, _ => (st, s!"reject C15 reader {r.id} still saw state {r.k} in [{r.call},{r.ret}] after write {r.k + 1} had returned at {wret (r.k + 1)}")
